@@ -179,11 +179,9 @@ def newFs (ts : TS.TypeSystem) (ti : Nat) (tyName : String) (xid : Option Int) (
   match TS.getType ts tyName with
   | .error e => pure (.error e)
   | .ok t =>
-    let fields := TS.ctorFields t
-    if feats.any (fun p => !(fields.contains p.1)) then pure (.error .typeError)
-    else
-      let slots := fields.eraseDups.map (fun n => (n, (alistGet? feats n).getD .none))
-      let o : Obj := { ty := t.name, ts := ti, xid := xid, slots := slots }
+    match construct t ti xid feats with
+    | .error e => pure (.error e)
+    | .ok o =>
       let w ← get
       set { w with heap := w.heap ++ [o] }
       pure (.ok w.heap.length)
